@@ -108,7 +108,7 @@ def model_op(t, call):
 
 def gen_call(rng, o, t, is_cfg, prev=None):
     lv = leaves_of(t)
-    kinds = ["evaluate", "evalprops", "assume", "reduce", "negate", "errors", "to_json", "to_b64", "encode", "flatten", "solve"]
+    kinds = ["evaluate", "evalprops", "assume", "reduce", "negate", "negate", "errors", "to_json", "to_b64", "encode", "flatten", "solve"]
     if is_cfg:
         kinds += ["ge_polyhedron", "ge_polyhedron", "default_prios", "leafs", "select", "select", "add"]
     k = rng.choice(kinds)
@@ -272,8 +272,24 @@ def run(ctx):
             if rng.random() < 0.5: objs.reverse()
         else:
             for _ in range(rng.randint(1, 3)):
-                if rng.random() < 0.5:
+                r2 = rng.random()
+                if r2 < 0.4:
                     a, o, t = valid_configurator(rng, ctx.quick, int_leaf=rng.random() < 0.3)
+                elif r2 < 0.6:
+                    # nodes over a mix of sub-propositions and atoms, every value / sign / atom-bounds combination
+                    # (the shapes on which negate / assume / reduce take their special branches)
+                    from props.c05 import gen_mixed
+                    a = None
+                    for _ in range(30):
+                        cand = gen_mixed(rng)
+                        try:
+                            oc = build(cand)
+                        except Exception:
+                            continue
+                        if not is_var(oc) and well_formed(snap(oc)) and not oc.errors():
+                            a = cand; break
+                    if a is None:
+                        a, o, t = gen_valid(rng, ctx.quick, share=False)
                 else:
                     a, o, t = gen_valid(rng, ctx.quick, share=False)
                 objs.append(a)
